@@ -4,6 +4,7 @@ use sqlparser::tokenizer::Span;
 
 use super::*;
 use crate::parser::{Expr, Query, SelectItem, SetExpr};
+use crate::planner::ExprAnalysis;
 
 impl Binder {
     /// Binds a query in a new sub-context.
@@ -38,12 +39,29 @@ impl Binder {
             None => self.egraph.add(Node::zero()),
         };
         // the planner and the executors need the numbers themselves
-        for id in [limit, offset] {
-            if !self.is_constant_expr(id) {
-                return Err(ErrorKind::Todo("non-constant LIMIT / OFFSET".into()).into());
-            }
-        }
+        let limit = self.bind_row_count(limit, "LIMIT", true)?;
+        let offset = self.bind_row_count(offset, "OFFSET", false)?;
         Ok(self.egraph.add(Node::Limit([limit, offset, child])))
+    }
+
+    /// Folds a LIMIT / OFFSET expression into the constant that row estimation and the executors
+    /// unwrap: a non-negative integer, or NULL for "no limit".
+    fn bind_row_count(&mut self, id: Id, clause: &str, nullable: bool) -> Result {
+        if !self.is_constant_expr(id) {
+            return Err(ErrorKind::Todo("non-constant LIMIT / OFFSET".into()).into());
+        }
+        let expr = self.node(id).build_recexpr(|id| self.node(id).clone());
+        let mut egraph = egg::EGraph::new(ExprAnalysis::default());
+        let root = egraph.add_expr(&expr);
+        match egraph[root].data.constant.clone() {
+            Some(value) if matches!(value.as_usize(), Ok(n) if n.is_some() || nullable) => {
+                Ok(self.egraph.add(Node::Constant(value)))
+            }
+            _ => Err(ErrorKind::InvalidExpression(format!(
+                "{clause} must be a non-negative integer constant"
+            ))
+            .into()),
+        }
     }
 
     /// Returns true if the expression `id` depends on no column, aggregation or subquery.
